@@ -82,6 +82,11 @@ def apply_op(g, v, op, v2=None) -> None:
         ids = kmask_ids(op[1])
         g.set_known_values([(v2 if op[2] >> s & 1 else v)[s] for s in ids], [coal(s) for s in ids])
         return
+    if kind == "scribble":       # overwrite the bounds of every unknown coalition through the public bulk setters
+        N = 1 << g.number_of_players
+        g.set_lower_bounds(np.full(N, -7.5))
+        g.set_upper_bounds(np.full(N, 9.25))
+        return
     if kind == "compute":
         g.compute_bounds()
     elif kind == "reveal":
@@ -133,6 +138,7 @@ class LatticeRun:
         self.ex = tuple(explor if explor is not None else explorable_ids(n))
         self.T: dict[int, Tab] = {}
         self.T2: dict[tuple, Tab] = {}
+        self.scribble = True     # dirty runs may overwrite the stored bounds through the public bulk bound setters
         self.v2 = None           # optional alternative values: histories may re-reveal a coalition with a DIFFERENT value
         self.fresh_obj: dict[int, Any] = {}
         self.dead = False        # stop after the first violations of this unit (keeps broken trees fast)
@@ -501,6 +507,8 @@ class LatticeRun:
         if self.v2 is not None:
             for s in self.ex:
                 ops.append(("reveal_alt", s) if not k >> s & 1 else ("set_alt", s))
+        if self.scribble:
+            ops.append(("scribble",))
         return ops
 
 
